@@ -72,8 +72,8 @@ def run(rep):
     rc, out, err, secs = native.run_replay(ID, "c03", ["stmts"], extra_files=_extra)
     if rc in (0, 1):
         rep.obligation("native:c03_statements", "native exhaustive enumeration (rustc, real crates)", rc == 0, seconds=secs,
-                       detail="1710 quads: 6 subjects x 57 objects x 5 graph names (every literal shape incl. datatypes resembling xsd:string, tags, surrounding white space, quoted triples, blank node labels over the PN_CHARS repertoire, IRIs with dot / empty segments, percent-escapes, upper case, every C0 control / DEL / NEL / LS / BOM / non-character in literals) x 3 graph names through NqSerializer/NtSerializer and sophia_turtle's parsers: one statement per line, parse(serialize(q)) == q | functions: serialize_quads, serialize_triples, write_triple, write_term with long IRIs",
-                       complete=False, bound="1710 single-statement datasets")
+                       detail="1710 quads: 6 subjects x 57 objects x 5 graph names (every literal shape incl. datatypes resembling xsd:string, tags, surrounding white space, quoted triples, blank node labels over the PN_CHARS repertoire, IRIs with dot / empty segments, percent-escapes, upper case, every C0 control / DEL / NEL / LS / BOM / non-character in literals); whole datasets of 0 / 1 / 80 / 100 / 150 / 400 / 1000 statements through one serializer call (stringifier and io::Write) x 3 graph names through NqSerializer/NtSerializer and sophia_turtle's parsers: one statement per line, parse(serialize(q)) == q | functions: serialize_quads, serialize_triples, write_triple, write_term with long IRIs",
+                       complete=False, bound="1710 single-statement datasets + 7 larger ones (up to 1000 statements, > 100 KiB)")
         if rc == 1:
             rep.violation("native:c03_statements", "bounded stand-in failed\n" + out[-1500:], witness=out.strip().splitlines()[0],
                           replay_text="./check C03 --replay <this file>", confirmed=True)
